@@ -219,6 +219,17 @@ def run(repo, chk):
         bad = None
         for p, ev in paths:
             conds = _efg.Conds(ev)
+            if arm != 'ReturnStatement':
+                # the recorded defeat target of the innermost loop, however the record spells it
+                target = None
+                for i_, e_ in enumerate(ev):
+                    if e_.kind == 'cond' and e_.text.endswith(' == self.effective_defeat') or e_.kind == 'cond' and e_.text.startswith('self.effective_defeat == '):
+                        other = e_.text.replace(' == self.effective_defeat', '').replace('self.effective_defeat == ', '')
+                        if gf.loop_read(other, ev, i_) == 'defeat':
+                            target = other
+                if target is None:
+                    bad = 'no decision comparing effective_defeat with the defeat target recorded for the innermost loop'
+                    break
             ctext = f'self.effective_defeat != {target}'
             if ctext not in conds:
                 bad = f'no decision `{ctext}` on the path'
@@ -243,25 +254,24 @@ def run(repo, chk):
             elif movs:
                 bad = 'defeat written although effective_defeat already equals the target'
                 break
-            if arm != 'ReturnStatement':
-                info = [e for e in ev if e.kind == 'assign' and e.target == 'info']
-                if not info or src(info[-1].value) != 'self.loop_info[-1]':
-                    bad = 'info must be the innermost loop record self.loop_info[-1]'
-                    break
         chk.expect(bad is None, 'C02.T4', f'gen_stmts[{arm}]', bad or '', GEN)
     # LoopInfo captured at loop entry with the defeat in force
     lp = arm_paths(gf, 'gen_block', 'LoopBlock')
     chk.floor('loop paths', len(lp), 1)
     for p, ev in lp:
-        calls = [(i, e) for i, e in enumerate(ev) if e.kind == 'call' and e.func == 'LoopInfo']
-        app = [(i, e) for i, e in enumerate(ev) if e.kind == 'call' and e.func == '.append' and e.recv is not None and src(e.recv) == 'self.loop_info']
-        popc = [(i, e) for i, e in enumerate(ev) if e.kind == 'call' and e.func == '.pop' and e.recv is not None and src(e.recv) == 'self.loop_info']
+        try:
+            rec = gf.loop_record()
+        except AnalysisError as e_:
+            chk.fail('C02.T4', 'gen_block[LoopBlock]::LoopInfo', str(e_), GEN)
+            break
+        app = [(i, e) for i, e in enumerate(ev) if e.kind == 'call' and e.func == rec['push'] and e.recv is not None and src(e.recv) == 'self.loop_info']
+        popc = [(i, e) for i, e in enumerate(ev) if e.kind == 'call' and e.func == rec['pop'] and e.recv is not None and src(e.recv) == 'self.loop_info']
         body = [i for i, e in enumerate(ev) if is_sub(e, 'self.gen_block', 'block.body')]
-        ok = len(calls) == 1 and len(app) == 1 and len(popc) == 1 and len(body) == 1
+        # all four roles recorded, pushed before the body, popped after it, and pushed / popped at the same end
+        ok = len(app) == 1 and len(popc) == 1 and len(body) == 1 and set(rec['roles']) == {'arrays', 'defeat', 'continue', 'break'} \
+            and (rec['push'], rec['pop']) in (('.append', '.pop'), ('.appendleft', '.popleft'))
         if ok:
-            a = [src(x) for x in calls[0][1].args]
-            ok = len(a) == 4 and a[3] == 'self.effective_defeat' and a[1] == 'loop_continue' and a[2] == 'loop_break' \
-                and a[0] == 'self.stack' and app[0][0] < body[0] < popc[0][0]
+            ok = app[0][0] < body[0] < popc[0][0] and not popc[0][1].args
         chk.expect(ok, 'C02.T4', 'gen_block[LoopBlock]::LoopInfo',
                    'LoopInfo must record (stack, continue label, break label, self.effective_defeat) before the body and be '
                    'popped after it: break/continue restore the defeat target that was in force at loop entry', GEN)
